@@ -121,7 +121,12 @@ def gen(rng, tier, ctx):
                   "log": rng.choice([None, None, "i", "d"]) if klass != "plain" else None,
                   "entropy": rng.randint(0, 2 ** 32)}
             env.pop("log", None)
-            if klass == "faulty" and op["save"] and rng.random() < 0.2:
+            if klass == "faulty" and rng.random() < 0.2:
+                # the user aborts the run (Ctrl-C) or it is killed, and the same command is run again
+                op["interrupt"] = {"frac": rng.random()}
+                if rng.random() < 0.5:
+                    op["kill"] = {"keep": rng.choice([0.0, rng.random(), 1.0])}
+            elif klass == "faulty" and op["save"] and rng.random() < 0.25:
                 on = rng.choice(["write", "write", "close", "close", "open"])
                 op["fs_faults"] = [{"on": on, "mode": "w", "nth": 1 if on != "write" else rng.randint(1, 30),
                                     "errno": rng.choice(["ENOSPC", "EIO", "EACCES"]), "partial": rng.choice([0, 0.5])}]
@@ -389,6 +394,19 @@ def execute(spec, w, ctx):
                 log = "i"
             if op.get("fs_faults"):
                 cfg["fs_faults"] = op["fs_faults"]
+            if op.get("interrupt") and not heavy and cfg["step_cap"] < 20 * 6000 + 100000:
+                c0 = dict(cfg, fine=True, step_cap=40 * cfg["step_cap"])
+                c0.pop("fs_faults", None)
+                out0 = ops.solver_cli(w, path, bool(op.get("save")), log, c0, op.get("entropy", 0), {})
+                if out0["status"] == "ok":
+                    ci = dict(c0, interrupt={"at": common.interrupt_at(op["interrupt"], out0)})
+                    if op.get("kill"):
+                        ci["kill"] = op["kill"]
+                    outi = ops.solver_cli(w, path, bool(op.get("save")), log, ci, op.get("entropy", 0), {})
+                    events.append([i_op, "cli-interrupted", outi["status"], outi.get("site")])
+                    if outi["status"] == "interrupt":
+                        w.probe("interrupt-in:" + str(outi.get("site", "?")).split(":")[0])
+                        w.probe("same-command-rerun-after-abort")
             out = ops.solver_cli(w, path, bool(op.get("save")), log, cfg, op.get("entropy", 0), cap)
             events.append([i_op, "cli", names, out["status"], out["steps"], bool(op.get("save")), op.get("log"), out["fs_fired"]])
             if out["fs_fired"] and out["status"] != "ok":
